@@ -145,7 +145,7 @@ def run(ctx):
         if not m:
             break
         core = m.group(2)
-    if re.match(r"^std::iter::Iterator::flat_map\((std::iter::Iterator::rev\()?core::slice::<impl \[T\]>::iter\(nodes\)\)?, closure<\{closure#\d+\}>\)$", core):
+    if re.match(r"^std::iter::Iterator::(flat_map|filter_map)\((std::iter::Iterator::rev\()?core::slice::<impl \[T\]>::iter\(nodes\)\)?, closure<\{closure#\d+\}>\)$", core):
         oc = [v for v in cl.values() if v.path != mc.path and not v.caps]
         okc = False
         for v in oc:
